@@ -4,47 +4,53 @@ CFG = {'lean_modules': ['ObiVerif.Props.C01'],
  'gen': False,
  'thorough_seeds': 6,
  'rule': 'cases = (op, format/options, read-buffer size, parser workers, transport, file bytes). Files: corpus of hand-picked nasty inputs + generated '
-         'well-formed FASTA / FASTQ / GenBank / EMBL files of 0..6 records (titles containing > @ +, folded/unfolded sequence lines, LF / CR LF / mixed, '
-         'blank lines, quality lines starting with @ or + or looking like sequence, "+id" separator lines, flat-file records with and without '
-         '/db_xref="taxon: and SOURCE/OS lines, with/without qualities, with/without feature table) + a malformed stream (mutated files, small-alphabet '
-         'noise). Per file: `parse` (one chunk), `split` on random prefixes, and for every chosen buffer size `chunks` (ReadSeqFileChunk) and `pipe` '
-         '(chunk reader + 1..4 racing private parser workers + SortBatches over bytes.Reader / io.Pipe with 1..7-byte writes / one-byte reader / gzip through '
-         'the real opener obiformats.Buf). Buffer sizes: quick about 40 per file incl. 2,3,4,5,len-1,len,len+1,len+2; thorough EVERY size 2..len+2 (every cut '
-         'position) for FASTA/FASTQ files <= 400 bytes and compact flat files <= 700 bytes. `big`: the real ReadFasta/ReadFastq/ReadGenbank/ReadEMBL entry '
-         'points (hard-coded 1 MiB / 128 MiB buffers) on generated multi-chunk streams (2.5-5 MB, resp. just over 128 MiB) with 2..4 workers. `kseq`: the '
-         'C/kseq reader against the Go chunk parser on every generated FASTA/FASTQ file. non-trivial = distinct case with at least two chunks (chunks/pipe) '
-         'or a non-empty input (split/parse); big/kseq cases are oracle-only and counted trivial',
+         'well-formed FASTA / FASTQ / GenBank / EMBL files of 0..6 records (titles containing > @ +, folded/unfolded sequence lines, LF / CR LF / mixed, blank '
+         'lines, quality lines starting with @ or + or looking like sequence, "+id" separator lines, flat-file records with and without /db_xref="taxon: and '
+         'SOURCE/OS lines, with/without qualities, with/without feature table) + a malformed stream (mutated files, small-alphabet noise). Per file: `parse` '
+         '(one chunk), `split` on random prefixes, and for every chosen buffer size `chunks` (ReadSeqFileChunk) and `pipe` (chunk reader + 1..4 racing private '
+         'parser workers + SortBatches over bytes.Reader / io.Pipe with 1..7-byte writes / one-byte reader / gzip through the real opener obiformats.Buf). '
+         'Buffer sizes: quick about 40 per file incl. 2,3,4,5,len-1,len,len+1,len+2; thorough EVERY size 2..len+2 (every cut position) for FASTA/FASTQ files '
+         '<= 400 bytes and compact flat files <= 700 bytes. `big`: the real ReadFasta/ReadFastq/ReadGenbank/ReadEMBL entry points (hard-coded 1 MiB / 128 MiB '
+         'buffers) on generated multi-chunk streams (2.5-5 MB, resp. just over 128 MiB) with 2..4 workers. `kseq`: the C/kseq reader against the Go chunk '
+         'parser on every generated FASTA/FASTQ file. non-trivial = distinct case with at least two chunks (chunks/pipe) or a non-empty input (split/parse); '
+         'big/kseq cases are oracle-only and counted trivial',
  'technique': 'Lean 4 theorems on executable models of ReadSeqFileChunk, the three record splitters, the four chunk parsers and the re-sequencer, for all '
-              'files / buffer sizes / arrival orders + differential correspondence of every model with the real code (small buffers reach every cut '
-              'position) + direct oracles on the real code (one-chunk parse, naive line-based reference parser, file order, reassembly, two-parser agreement)',
- 'level_text': 'PROVED (Props/C01.lean, no bound on file, buffer or schedule). (1) ReadSeqFileChunk, for ANY splitter returning a negative value or a '
-               'position in [1,len] and any buffer >= 2: the goroutine terminates (chunks_terminate: fuel never exhausted; a splitter returning 0 loops, '
-               'example) and the chunk texts in order are the file minus runs of end-of-line bytes, none empty (chunks_reassemble); the three real splitters '
-               'satisfy that contract (splitFasta_contract, splitFastq_contract, splitFlat_contract => chunks_all_formats). (2) EndOfLastFastaEntry returns -1 '
-               'or the offset >= 1 of a ">" that follows an end-of-line byte (splitFasta_spec); a non-negative EndOfLastFastqEntry result follows an '
-               'end-of-line byte (splitFastq_line_start); the bytes before a non-negative EndOfLastFlatFileEntry result end with LF // LF or LF // CR LF '
-               '(splitFlat_spec). (2b) EMBL record locality: if a ends with an end-of-record line, parseEmbl (a ++ b) = records of a then records of b for every b '
-               '(parseEmbl_append; false for the unrepaired parser). (3) FASTA end to end: every chunk of a whole-records text is a whole number of records '
+              'files / buffer sizes / arrival orders + differential correspondence of every model with the real code (small buffers reach every cut position) '
+              '+ direct oracles on the real code (one-chunk parse, naive line-based reference parser, file order, reassembly, two-parser agreement)',
+ 'level_text': 'PROVED (Props/C01.lean, no bound on file, buffer or schedule). (1) ReadSeqFileChunk, for ANY splitter returning a negative value or a position '
+               'in [1,len] and any buffer >= 2: the goroutine terminates (chunks_terminate: fuel never exhausted; a splitter returning 0 loops, example) and '
+               'the chunk texts in order are the file minus runs of end-of-line bytes, none empty (chunks_reassemble); the three real splitters satisfy that '
+               'contract (splitFasta_contract, splitFastq_contract, splitFlat_contract => chunks_all_formats). (2) EndOfLastFastaEntry returns -1 or the '
+               'offset >= 1 of a ">" that follows an end-of-line byte (splitFasta_spec); a non-negative EndOfLastFastqEntry result follows an end-of-line byte '
+               '(splitFastq_line_start); the bytes before a non-negative EndOfLastFlatFileEntry result end with LF // LF or LF // CR LF (splitFlat_spec). (2b) '
+               'EMBL record locality: if a ends with an end-of-record line, parseEmbl (a ++ b) = records of a then records of b for every b (parseEmbl_append; '
+               'false for the unrepaired parser). (3) FASTA end to end: every chunk of a whole-records text is a whole number of records '
                '(chunks_cut_at_boundaries); parsing c1 ++ eols ++ ">"... gives the records of c1 then those of the rest and fails exactly as the rest fails '
                '(parseFasta_append); reader_independent: for every text the chunk parser reads as a whole number of records, every buffer size >= 2 and EVERY '
                'arrival permutation of the numbered parsed chunks at SortBatches (any number of workers, any interleaving), the released batches are '
                'error-free and carry, in order, exactly the records of the one-chunk parse; wellFormed_complete + reader_independent_wellFormed: the same for '
-               'every file of an explicit FASTA grammar (titles with any byte but CR/LF incl. > @ +, folded sequences, LF/CRLF/blank lines). '
-               'TIED BY CORRESPONDENCE ONLY (modelled verbatim, theorems stated in comments, not proved): that a non-negative EndOfLastFastqEntry result is a '
-               'record start (line-cycle argument) and FASTQ record locality; the composition reader_independent for EMBL (needs a regular-line-end hypothesis) and GenBank record locality; '
-               'record content = what the record text implies is checked by the naive reference oracle on the real code, not proved. The C/kseq stdin reader '
-               'is not modelled: two-parser agreement oracle only.',
+               'every file of an explicit FASTA grammar (titles with any byte but CR/LF incl. > @ +, folded sequences, LF/CRLF/blank lines). (4) FASTQ '
+               '(deepening round): splitFastq_pattern (exact shape of what the backward 7-state machine accepts), splitFastq_is_record_start / _wellFormed (on '
+               'every prefix of a well-formed single-line FASTQ file a non-negative result is the offset of an @ that starts a record - the parser is in its '
+               'start state there), splitFastq_never_quality_line, wellFormedFastq_complete, parseFastq_append, chunks_cut_at_boundaries_fastq, '
+               'reader_independent_fastq / _wellFormed (every buffer size >= 2, every arrival permutation). (5) Flat files: parseGenbank_append, '
+               'reader_independent_embl, reader_independent_genbank, reader_independent_flat under the explicit hypothesis regularEol (every CR is followed by '
+               'LF), with counterexample theorems for irregular line ends (reader_embl_irregular_counterexample, reader_genbank_irregular_counterexample: '
+               'stray CR runs, outside well-formed files). NOT proved: record content = what the record text implies is checked by the naive reference oracle '
+               'on the real code, not proved. The C/kseq stdin reader is not modelled: two-parser agreement oracle only.',
  'level_note': 'Defects found by the oracle on the unmodified code and repaired in /repo (patches in notes/patches/C01-*.diff): GenBank/EMBL parsers kept '
                'taxid/scientific_name (EMBL: id) across records; FastqChunkParser(with_quality=false) stored qualities for the last record of every chunk; '
-               'ReadGenbank/ReadEMBL did not re-sequence the parsed chunks (out-of-order delivery with 2+ workers on inputs > 128 MiB); the kseq reader '
-               'kept the CR of CR LF title lines (and extra leading blanks) in the definition. The models are of the repaired code. Hypothesis of the FASTA '
+               'ReadGenbank/ReadEMBL did not re-sequence the parsed chunks (out-of-order delivery with 2+ workers on inputs > 128 MiB); the kseq reader kept '
+               'the CR of CR LF title lines (and extra leading blanks) in the definition. The models are of the repaired code. Hypothesis of the FASTA '
                'theorems is FaComplete (the one-chunk parse succeeds and ends inside a sequence) - weaker than the grammar, which is shown to imply it. '
                'Trusted: io.ReadFull contract (what makes the transport irrelevant; exercised with 4 transports), SortBatches = Model/Reseq (tied by C03), '
                'goroutine liveness / channel protocol (watchdog only), bufio line limits (lines > 4096 / 65536 bytes not modelled), strings.TrimSpace on '
                'non-ASCII white space not modelled, header (JSON/OBI) parsing excluded (C02).',
- 'trusted_base': LEAN_TB + ['io.ReadFull: fills the buffer unless the stream ends (ErrUnexpectedEOF / EOF)', 'bufio.Reader.ReadLine / bufio.Scanner line splitting as modelled (linesReadLine, linesScan)',
-                            'strconv.Atoi, strings.SplitN, strings.TrimSpace (ASCII) as modelled', 'compress/gzip + obiformats.Buf as a transport',
-                            'C kseq reader (fastseq_read.c, kseq.h): not modelled, compared with the Go parser'],
+ 'trusted_base': LEAN_TB + ['io.ReadFull: fills the buffer unless the stream ends (ErrUnexpectedEOF / EOF)',
+ 'bufio.Reader.ReadLine / bufio.Scanner line splitting as modelled (linesReadLine, linesScan)',
+ 'strconv.Atoi, strings.SplitN, strings.TrimSpace (ASCII) as modelled',
+ 'compress/gzip + obiformats.Buf as a transport',
+ 'C kseq reader (fastseq_read.c, kseq.h): not modelled, compared with the Go parser'],
  'modelled': 'pkg/obiformats: seqfile_chunk_read.go (ReadSeqFileChunk), fastaseq_read.go (EndOfLastFastaEntry, FastaChunkParser), fastqseq_read.go '
              '(EndOfLastFastqEntry, FastqChunkParser, _storeSequenceQuality), embl_read.go (EndOfLastFlatFileEntry, EmblChunkParser), genbank_read.go '
              '(GenbankChunkParser); the worker/SortBatches composition of ReadFasta/ReadFastq/ReadGenbank/ReadEMBL (Model/Reseq.lean)',
